@@ -596,7 +596,7 @@ fn ref_text(intent: &Intent, pos: &Vec<HashMap<usize, usize>>, u: usize, i: usiz
     }
 }
 
-/// `crossver`: predict what the known FileIndex defect produces instead (raw index computed from the unit's
+/// `crossver`: predict what the FileIndex defect repaired by c92c4f4 produced instead (raw index computed from the unit's
 /// version while the line program uses the 1-based numbering of DWARF <= 4) — only used to classify a mismatch.
 fn predict(intent: &Intent, endian: RunTimeEndian, crossver: bool) -> Vec<String> {
     type AV<'a> = gimli::AttributeValue<Rd<'a>>;
@@ -851,6 +851,7 @@ pub fn run(t: &[&str]) -> String {
                 let expected = predict(&intent, endian, false);
                 let diff = diff_classes(&expected, &actual);
                 if !diff.is_empty() {
+                    // (the defect repaired by c92c4f4 stays recognisable: a mutant reverting it is named)
                     if diff_classes(&predict(&intent, endian, true), &actual).is_empty() {
                         return "readback-mismatch crossver-file".to_string();
                     }
